@@ -312,6 +312,31 @@ def handle (j : Json) : Except String Json := do
     match Tx.sensitivityTransform c (← (← j.getObjVal? "n").getStr?) ord with
     | .ok r => pure (respond .ok [("c", circuitToJson r)])
     | .error e => pure (respond e [])
+  | "acyclic_unroll" =>
+    let c ← circuitOfJson (← j.getObjVal? "c")
+    match Tx.acyclicUnroll c ord ord with
+    | .ok r => pure (respond .ok [("c", circuitToJson r), ("feedback", jarr jstr (dedup ((Tx.approxMinFas c).map (·.1))))])
+    | .error e => pure (respond e [])
+  | "sequential_unroll" =>
+    let c ← circuitOfJson (← j.getObjVal? "c")
+    let iv := j.getObjValD "initial_values"
+    let initStr : Option String := match iv.getStr? with | .ok s => some s | .error _ => none
+    let initDict : List (String × String) := match iv.getArr? with
+      | .ok a => a.toList.filterMap (fun x => match x.getArr? with
+          | .ok p => (match p[0]!.getStr?, p[1]!.getStr? with | .ok a, .ok b => some (a, b) | _, _ => none)
+          | .error _ => none)
+      | .error _ => []
+    match Tx.sequentialUnroll c (← (← j.getObjVal? "n").getNat?) (← (← j.getObjVal? "d").getStr?)
+        (← (← j.getObjVal? "q").getStr?) (getStrListD j "ignore_pins") (getBoolD j "add_flop_outputs" false)
+        initStr initDict (getBoolD j "remove_unloaded" true) "cg_unroll" ord with
+    | .ok (r, m) => pure (respond .ok [("c", circuitToJson r),
+        ("io_map", jarr (fun (p : String × List String) => Json.arr #[jstr p.1, jarr jstr p.2]) m)])
+    | .error e => pure (respond e [])
+  | "insert_registers" =>
+    let c ← circuitOfJson (← j.getObjVal? "c")
+    match Tx.insertRegisters c (← (← j.getObjVal? "num_stages").getNat?) ord 2000000 with
+    | .ok r => pure (respond .ok [("c", circuitToJson r)])
+    | .error e => pure (respond e [])
   | "ord" =>
     pure (respond .ok [("r", jarr jstr (ord (getStrListD j "l")))])
   | _ => throw s!"unknown op {op}"
